@@ -290,20 +290,17 @@ pub fn run(tier: Tier, seed: u64) -> i32 {
         total.merge(st);
     }
 
-    // T5b: 63 / 64 / 70 X inputs in one row, pulled lazily (2^64 and more executed rows)
+    // T5b: 63 / 64 / 70 X inputs in one row, pulled lazily (2^64 and more executed rows); each case in a
+    // child process under a 4 GB memory limit (see C05): neither a panic nor an abort
     for nx in [63usize, 64, 70] {
-        let mut s5: Vec<Sig> = (0..nx).map(|i| Sig::inp(&format!("I{i}"), 1, 0)).collect();
-        s5.push(Sig::inp("CLK", 1, 0));
-        s5.push(Sig::out("p", 64));
-        let mut h: Vec<String> = (0..nx).map(|i| format!("I{i}")).collect();
-        h.push("CLK".into());
-        h.push("p".into());
-        let mut row: Vec<Entry> = (0..nx).map(|_| Entry::X).collect();
-        row.push(Entry::C);
-        row.push(Entry::X);
-        let prog = Program { header: h, body: vec![Stmt::Row(row)] };
+        total.evals += 1;
+        total.nontrivial += 1;
         total.witness("sixty_four_and_more_x_inputs");
-        run_case_n(&mut total, (9 << 40) + nx as u64, &format!("T5b: {nx} X inputs and a clock in one row"), &prog, &s5, &[Step::Ans(vec![("p".into(), V::Num(1))])], true, 20);
+        if let Some(m) = crate::props::c05::xcase_in_child(nx, true) {
+            if m.contains("PANIC") || m.contains("Panic") || m.contains("panic") || m.contains("abnormally") {
+                total.violation("next() panics or the process aborts on a row with many X inputs", (9 << 40) + nx as u64, format!("T5b: {nx} X inputs and a clock in one row\n{m}"), || json!({"kind": "xcase", "nx": nx, "with_c": true, "expected": ["rows"], "observed": [m.clone()]}));
+            }
+        }
     }
 
     // T6: the C01/C18 program space under hostile constant answers
